@@ -127,6 +127,14 @@ Theorem C03_xlsb_sheet_main : forall (fdiv100 : N -> N) (en : env) (L : list cel
   worksheet_range_ref fdiv100 en FirstNonEmptyRow (encode_sheet c) = Ok (range_of (RVal DEmpty) L).
 Proof. exact xlsb_sheet_main. Qed.
 
+(* since Range::from_sparse takes min / max row bounds (commit 3140dd1) the order of the rows is
+   immaterial: the same without the sortedness clause of [legal] *)
+Theorem C03_xlsb_sheet_main_any_order : forall (fdiv100 : N -> N) (en : env) (c : layout),
+  wf_layout en c = true -> known_C03 c = None ->
+  worksheet_range_ref fdiv100 en FirstNonEmptyRow (encode_sheet c) =
+    Ok (range_of (RVal DEmpty) (logical fdiv100 en c)).
+Proof. exact xlsb_sheet_main_any_order. Qed.
+
 Theorem C03_xlsb_sheet_values : forall (fdiv100 : N -> N) (en : env) (L : list cellr) (c : layout),
   legal fdiv100 en c L -> known_C03 c = None ->
   exists r, worksheet_range_ref fdiv100 en FirstNonEmptyRow (encode_sheet c) = Ok r /\ Wf r /\
@@ -155,6 +163,46 @@ Theorem C03_xlsb_workbook_main :
   workbook_range_ref fdiv100 formats is1904 (Some (encode_sst total items trailer))
                      FirstNonEmptyRow (encode_sheet c) = Ok (range_of (RVal DEmpty) L).
 Proof. exact xlsb_workbook_main. Qed.
+
+(* ---- totality after the C06 hardening: no byte string makes the reader panic ---- *)
+Theorem C03_no_panic_framing :
+  (forall s : list N, read_type s <> Panic /\ read_type s <> OutOfFuel) /\
+  (forall s buf : list N, fill_buffer s buf <> Panic /\ fill_buffer s buf <> OutOfFuel) /\
+  (forall s : list N, next_record s <> Panic /\ next_record s <> OutOfFuel) /\
+  (forall (f : nat) (e : N) (s buf : list N), (length s < f)%nat ->
+     skip_until f e s buf <> Panic /\ skip_until f e s buf <> OutOfFuel) /\
+  (forall (f : nat) (rt : N) (bounds : list (N * option N)) (s buf : list N), (length s < f)%nat ->
+     next_skip_blocks f rt bounds s buf <> Panic /\ next_skip_blocks f rt bounds s buf <> OutOfFuel).
+Proof. exact no_panic_framing. Qed.
+
+(* all inputs, no well-formedness hypothesis; the fuel is the one the model fixes itself
+   (length of the part + 1) *)
+Theorem C03_no_panic_reader : forall (fdiv100 : N -> N) (en : env) (s : list N),
+  (reader_cells fdiv100 en s <> Panic /\ reader_cells fdiv100 en s <> OutOfFuel) /\
+  (sheet_cells fdiv100 en s <> Panic /\ sheet_cells fdiv100 en s <> OutOfFuel).
+Proof. exact no_panic_reader. Qed.
+
+Theorem C03_no_panic_cell_loop : forall (fdiv100 : N -> N) (en : env) (f : nat) (s : list N) (row : N),
+  (length s < f)%nat ->
+  cells_loop fdiv100 en f s row <> Panic /\ cells_loop fdiv100 en f s row <> OutOfFuel.
+Proof. exact cells_loop_clean. Qed.
+
+Theorem C03_no_panic_range_ref :
+  forall (fdiv100 : N -> N) (en : env) (h : header_row) (s : list N),
+  (worksheet_range_ref fdiv100 en h s <> Panic /\ worksheet_range_ref fdiv100 en h s <> OutOfFuel) /\
+  (worksheet_range fdiv100 en h s <> Panic /\ worksheet_range fdiv100 en h s <> OutOfFuel).
+Proof. exact no_panic_range_ref. Qed.
+
+Theorem C03_no_panic_workbook :
+  forall (fdiv100 : N -> N) (formats : list cellfmt) (is1904 : bool) (sst : option (list N))
+         (h : header_row) (sheet : list N),
+  workbook_range_ref fdiv100 formats is1904 sst h sheet <> Panic /\
+  workbook_range_ref fdiv100 formats is1904 sst h sheet <> OutOfFuel.
+Proof. exact no_panic_workbook. Qed.
+
+Theorem C03_no_panic_sst : forall part : option (list N),
+  read_shared_strings part <> Panic /\ read_shared_strings part <> OutOfFuel.
+Proof. exact no_panic_sst. Qed.
 
 (* ---- the known class: a worksheet part without BrtWsDim ---- *)
 Theorem C03_refuted_wsdim_absent : forall fdiv100 : N -> N, exists (c : layout) (L : list cellr),
@@ -225,4 +273,11 @@ Print Assumptions C03_xlsb_sheet_values.
 Print Assumptions C03_xlsb_sheet_main_data.
 Print Assumptions C03_sst_roundtrip.
 Print Assumptions C03_xlsb_workbook_main.
+Print Assumptions C03_no_panic_framing.
+Print Assumptions C03_no_panic_reader.
+Print Assumptions C03_no_panic_cell_loop.
+Print Assumptions C03_no_panic_sst.
+Print Assumptions C03_no_panic_range_ref.
+Print Assumptions C03_no_panic_workbook.
+Print Assumptions C03_xlsb_sheet_main_any_order.
 Print Assumptions C03_refuted_wsdim_absent.
